@@ -315,12 +315,14 @@ func heavyFiles(r *gen.Rand, shape int) (map[string]string, string) {
 	default:
 		// many documents with references and repeats
 		var b strings.Builder
-		n := r.Range(200, 600)
+		n := r.Range(40, 300)
 		for i := 0; i < n; i++ {
 			if i > 0 {
 				b.WriteString("---\n")
 			}
-			fmt.Fprintf(&b, "name: d%d\ntmpl: {a: %d, l: [1, 2, 3]}\nuse: {$merge: tmpl, b: 2}\nr:\n- {$repeat: 3, i: $repeat}\ns: $\"n={name}\"\n", i, i)
+			// every document copies an evaluated value from a document far away in the stream
+			j := (i + 24) % n
+			fmt.Fprintf(&b, "name: d%d\ntmpl: {a: %d, l: [1, 2, 3]}\nuse: {$merge: tmpl, b: 2}\nr:\n- {$repeat: 3, i: $repeat}\ns: $\"n={name}\"\nfar: {$replace: {$match: {name: d%d}, $path: s}}\n", i, i, j)
 		}
 		return map[string]string{"heavy.yaml": b.String()}, "heavy.yaml"
 	}
@@ -502,7 +504,7 @@ func RunC09(e *Env) (int, error) {
 	defer c.stock.Close()
 
 	n := e.N(2500, 25000)
-	heavyEvery := n / int64(e.Pick(2, 10))
+	heavyEvery := n / int64(e.Pick(3, 12))
 	if heavyEvery < 1 {
 		heavyEvery = 1
 	}
